@@ -46,13 +46,13 @@ func c20time(r *vh.RNG) time.Time {
 	case 3:
 		return time.Date(9999, 12, 31, 23, 59, 59, 999999999, time.UTC)
 	case 4:
-		return time.Unix(int64(r.Intn(1<<31)), int64(r.Intn(1000))*1000+999) // 1 ns before a microsecond boundary
+		return time.Unix(int64(r.Intn(1<<31-1)), int64(r.Intn(1000))*1000+999) // 1 ns before a microsecond boundary
 	case 5:
-		return time.Unix(int64(r.Intn(1<<31)), int64(r.Intn(1000))*1000+1)
+		return time.Unix(int64(r.Intn(1<<31-1)), int64(r.Intn(1000))*1000+1)
 	case 6:
-		return time.Unix(-int64(r.Intn(1<<31)), int64(r.Intn(1000000000)))
+		return time.Unix(-int64(r.Intn(1<<31-1)), int64(r.Intn(1000000000)))
 	case 7:
-		return time.Unix(int64(r.Intn(1<<31)), int64(r.Intn(1000000000))).In(time.FixedZone("x", 3600*5))
+		return time.Unix(int64(r.Intn(1<<31-1)), int64(r.Intn(1000000000))).In(time.FixedZone("x", 3600*5))
 	default:
 		return time.Unix(1600000000+int64(r.Intn(1<<27)), int64(r.Intn(1000000000)))
 	}
